@@ -334,6 +334,11 @@ def health_events(sq, res, memory_kinds_only=True, judge=True, witness=None):
             else:
                 res.note("ubsan note: " + where + " " + msg[:120])
     fl = [l for l in sq.fatal_lines()]
+    # start-up failures caused by the (loaded, shared) machine rather than by squid: harness failure, not a verdict
+    env = [l for l in fl if any(x in l for x in ("failed to open db file", "Unable to open HTTP Socket", "registration timed out", "Cannot open HTTP Port"))]
+    if env:
+        res.harness_failure.append("environmental squid start-up failure: " + env[0][:300])
+        fl = [l for l in fl if l not in env]
     if fl:
         ok = False
         if judge:
